@@ -634,6 +634,98 @@ Proof.
   repeat split; try exact fin_f_0; lra.
 Qed.
 
+(** ** the degenerate range [lo = hi = 0]: every output is a zero *)
+
+Lemma fmul_zero_r : forall a x : f32, fin a -> fin x -> R32 x = 0 ->
+  R32 (fmul a x) = 0 /\ fin (fmul a x).
+Proof.
+  intros a x Fa Fx Hx.
+  assert (E : R32 a * R32 x = 0) by (rewrite Hx; ring).
+  destruct (fmul_exact a x Fa Fx) as [V F].
+  - rewrite E. apply fmt_0.
+  - rewrite E, Rabs_R0. apply MAXF_pos.
+  - split; [now rewrite V|exact F].
+Qed.
+
+Lemma run_zero : forall d x, good (d_c d) -> df1_fin d -> fin x ->
+  R32 x = 0 -> R32 (d_x1 d) = 0 -> R32 (d_y1 d) = 0 ->
+  fin (snd (df1_run d x)) /\ R32 (snd (df1_run d x)) = 0.
+Proof.
+  intros d x (Fa & Fb & Eb1 & Ea2 & Eb2 & _) (Fy1 & Fy2 & Fx1 & Fx2) Fx Hx Hx1 Hy1.
+  unfold df1_run. cbv zeta. cbn [snd]. rewrite Eb1, Ea2, Eb2.
+  destruct (fmul_zero_r _ _ Fb Fx Hx) as [V1 F1].
+  destruct (fmul_zero_r _ _ Fb Fx1 Hx1) as [V2 F2].
+  destruct (fadd_zero_r _ _ F1 F2 V2) as [V3 F3]. rewrite V1 in V3.
+  destruct (fmul_zero_l (d_x2 d) Fx2) as [Vz Fz].
+  destruct (fadd_zero_r _ _ F3 Fz Vz) as [V4 F4]. rewrite V3 in V4.
+  destruct (fmul_zero_r _ _ Fa Fy1 Hy1) as [V5 F5].
+  destruct (fsub_zero_r _ _ F4 F5 V5) as [V6 F6]. rewrite V4 in V6.
+  destruct (fmul_zero_l (d_y2 d) Fy2) as [Vz2 Fz2].
+  destruct (fsub_zero_r _ _ F6 Fz2 Vz2) as [V7 F7]. rewrite V6 in V7.
+  split; assumption.
+Qed.
+
+Lemma hull_zero_run : forall kappa ops g ys,
+  df1_fin (g_lpf g) -> R32 (d_x1 (g_lpf g)) = 0 -> R32 (d_y1 (g_lpf g)) = 0 ->
+  Forall (fun c => good c /\ kappa <= speed c) (coeffs_used g ops) ->
+  Forall (op_input_in 0 0) ops ->
+  glide_outputs g ops = Some ys ->
+  Forall (fun y => fin y /\ R32 y = 0) ys.
+Proof.
+  intros kappa. induction ops as [|o r IH]; intros g ys Hf Hx1 Hy1 Hc Hin Hout.
+  - cbn [glide_outputs] in Hout. inversion Hout. constructor.
+  - cbn [coeffs_used] in Hc. inversion Hc as [|c0 l0 [Hg Hk] Hc']. subst c0 l0.
+    inversion Hin as [|o0 r0 Ho Hin']. subst o0 r0.
+    destruct o as [t|x].
+    + cbn [glide_outputs] in Hout. cbn [glide_step] in Hc'.
+      destruct (glide_set_time g t) as [g'|] eqn:Es; [|discriminate].
+      destruct (set_time_mem g t g' Es) as (E1 & E2 & E3 & E4).
+      apply (IH g' ys); try assumption.
+      * destruct Hf as (F1 & F2 & F3 & F4). unfold df1_fin. rewrite E1, E2, E3, E4. auto.
+      * now rewrite E3.
+      * now rewrite E1.
+    + cbn [glide_outputs] in Hout. cbn [glide_step] in Hc'.
+      rewrite glide_process_eq in Hout, Hc'. cbv beta iota zeta in Hout. cbn [fst] in Hc'.
+      cbn [op_input_in] in Ho. destruct Ho as [Fx Ix].
+      assert (Hx : R32 x = 0) by lra.
+      destruct (run_zero (g_lpf g) x Hg Hf Fx Hx Hx1 Hy1) as [Fy Vy].
+      destruct Hf as (F1 & F2 & F3 & F4).
+      match type of Hout with
+      | match glide_outputs ?g1 r with _ => _ end = _ =>
+          destruct (glide_outputs g1 r) as [ys'|] eqn:Eo; [|discriminate];
+          inversion Hout; subst ys; constructor; [split; assumption|];
+          apply (IH g1 ys'); try assumption
+      end.
+      unfold df1_fin. cbn [g_lpf d_y1 d_y2 d_x1 d_x2]. auto.
+Qed.
+
+(** C13_hull for a range that is either degenerate or at least 2^-100 wide *)
+Lemma hull_partial0 : forall fs g0 ops lo hi kappa ys,
+  glide_new fs = Some g0 ->
+  Forall (fun c => good c /\ kappa <= speed c) (coeffs_used g0 ops) ->
+  / 100000 <= kappa -> lo <= 0 <= hi ->
+  Rmax (- lo) hi = 0 \/ bpow radix2 (-100) <= Rmax (- lo) hi -> Rmax (- lo) hi <= bpow radix2 64 ->
+  Forall (op_input_in lo hi) ops ->
+  glide_outputs g0 ops = Some ys ->
+  Forall (fun y => fin y /\
+            lo - resolution kappa * Rmax (- lo) hi <= R32 y <= hi + resolution kappa * Rmax (- lo) hi) ys.
+Proof.
+  intros fs g0 ops lo hi kappa ys Hnew Hc Hk5 Hlh [HM0|HMlo] HMhi Hin Hout.
+  - assert (Hl : lo = 0).
+    { pose proof (Rmax_l (- lo) hi). lra. }
+    assert (Hh : hi = 0).
+    { pose proof (Rmax_r (- lo) hi). lra. }
+    rewrite HM0. subst lo hi.
+    destruct (glide_new_lpf fs g0 Hnew) as [c Ec].
+    assert (Z : Forall (fun y => fin y /\ R32 y = 0) ys).
+    { apply (hull_zero_run kappa ops g0 ys); try assumption; rewrite Ec.
+      - unfold df1_fin, df1_new. cbn [d_y1 d_y2 d_x1 d_x2]. repeat split; exact fin_f_0.
+      - exact R32_f_0.
+      - exact R32_f_0. }
+    apply Forall_impl with (2 := Z). intros y [Fy Vy]. split; [exact Fy|]. rewrite Vy. lra.
+  - now apply (hull_partial fs g0 ops lo hi kappa ys).
+Qed.
+
 (** ** the lower bound on the signal bound cannot be dropped
 
     With the coefficient set b0 = b1 = 1/2, a1 = 0 (pole 0, exact unit DC gain) and the
